@@ -1,10 +1,8 @@
 from typing import TypeVar, cast
 
 from reactivex import Observable, abc, typing
-from reactivex import operators as ops
 from reactivex.internal import curry_flip
 from reactivex.internal.basic import identity
-from reactivex.internal.utils import infinite
 from reactivex.typing import Mapper, MapperIndexed
 
 _T1 = TypeVar("_T1")
@@ -77,10 +75,27 @@ def map_indexed_(
 
     _mapper_indexed = mapper_indexed or cast(typing.MapperIndexed[_T1, _T2], _identity)
 
-    return source.pipe(
-        ops.zip_with_iterable(infinite()),
-        ops.starmap_indexed(_mapper_indexed),  # type: ignore
-    )
+    def subscribe(
+        obv: abc.ObserverBase[_T2], scheduler: abc.SchedulerBase | None = None
+    ) -> abc.DisposableBase:
+        count = 0
+
+        def on_next(value: _T1) -> None:
+            nonlocal count
+
+            try:
+                result = _mapper_indexed(value, count)
+            except Exception as err:  # pylint: disable=broad-except
+                obv.on_error(err)
+            else:
+                count += 1
+                obv.on_next(result)
+
+        return source.subscribe(
+            on_next, obv.on_error, obv.on_completed, scheduler=scheduler
+        )
+
+    return Observable(subscribe)
 
 
 __all__ = ["map_", "map_indexed_"]
